@@ -234,6 +234,9 @@ class RaiseAnalysis:
         return res
 
 
+# documented exception sets of builtins called on unvalidated input (Python library reference)
+BUILTIN_RAISES = {"open": ["OSError", "ValueError", "TypeError"]}
+
 # single-symbol exemptions: a raise guarded by an invariant the constructor established earlier (value-dependent infeasibility)
 RAISE_EXEMPT = {
     ("amoco/system/macho.py", "MachO.__read_symtab", "NotImplementedError"): "only reachable from MachO.__init__ after the magic was tested to be MH_MAGIC or MH_MAGIC_64 (fat headers take the other branch); the else arm of the same test is dead",
@@ -299,6 +302,23 @@ def r_raise(repo, tier):
         out.inst("%s::%s" % (f.key, norm(ctor)), {"try": norm(ctor), "catches": names, "explicit_may_raise": sorted({e for e, _, _ in rs}), "escaping": sorted("%s@%s" % k for k in escaping)})
         for (e, site), via in sorted(escaping.items()):
             out.report(site.split(":")[0], via.split(" <- ")[0], "%s escapes %s" % (e, norm(ctor)), int(site.split(":")[1]), "%s raised at %s (reached %s) is not caught by read_program's `except (%s)` around %s: identification of a malformed file reports an unrelated exception instead of falling through to the next format" % (e, site, via, ", ".join(names), norm(ctor)))
+    # builtin calls of read_program itself with a documented exception set: open() on an arbitrary byte string / path
+    stacks = _try_stack(f.node)
+    nopen = 0
+    for c in ast.walk(f.node):
+        if isinstance(c, ast.Call) and isinstance(c.func, ast.Name) and c.func.id in BUILTIN_RAISES:
+            nopen += 1
+            caught = []
+            for tr in stacks.get(id(c), []):
+                for h in tr.handlers:
+                    hn = _handler_names(h)
+                    caught += ["BaseException"] if hn is None else [getattr(getattr(builtins, x, None), "__name__", x) for x in hn]
+            missing = [e for e in BUILTIN_RAISES[c.func.id] if not ra.h.caught_by(e, caught)]
+            out.inst("%s::%s" % (f.key, norm(c)), {"call": norm(c), "documented_exceptions": BUILTIN_RAISES[c.func.id], "handlers": caught})
+            for e in missing:
+                out.report(CORE, "read_program", "%s escapes %s" % (e, norm(c)), c.lineno, "%s can raise %s (any subclass: a too long name, a directory, a missing path component ...) and the enclosing handlers (%s) do not catch it: a byte string that is not a usable file name makes read_program raise instead of being identified from its content" % (norm(c), e, ", ".join(caught) or "none"))
+    if nopen < 1:
+        raise AnalysisError("R-RAISE: read_program no longer opens its argument (anchor changed)")
     out.stats["tries"] = ntry
     out.stats["functions_summarised"] = len(ra.sets)
     if ntry < 6:
